@@ -469,6 +469,22 @@ func ExceptionKind(v ssa.Value, ctor string) (int64, bool) {
 		return 0, false
 	}
 	if !strings.HasSuffix(c.FullName(), ctor) {
+		// a parameterless constructor helper of the analysed package that returns such an exception
+		if g := c.Static; g != nil && len(g.Blocks) > 0 && len(c.Common.Args) == 0 && g.Signature.Recv() == nil {
+			kind, n := int64(0), 0
+			for _, vs := range ReturnedValues(g) {
+				if len(vs) != 1 {
+					return 0, false
+				}
+				k, ok := ExceptionKind(vs[0], ctor)
+				if !ok || (n > 0 && k != kind) {
+					return 0, false
+				}
+				kind = k
+				n++
+			}
+			return kind, n > 0
+		}
 		return 0, false
 	}
 	if len(c.Common.Args) == 0 {
@@ -749,14 +765,15 @@ func checkSequence(ctx *core.Ctx, r *RT, rule, construct string, fn *ssa.Functio
 	okAll := true
 	var firsts []ssa.Instruction
 	for _, s := range steps {
-		mn, mx := ssax.CountOnPathsTo(fn, from, s.P, goal)
+		w := liftedWeight(fn, s.P, 2)
+		mn, mx := ssax.CountOnPathsToW(fn, from, w, goal)
 		if mn != 1 || mx != 1 {
 			okAll = false
 			ctx.Violate(rule, construct+" › "+s.Name+" exactly once", fnPos(r, fn), sprintf("%s occurs %d..%d times on a success path (must be exactly once)", s.Name, mn, mx))
 		}
 		var f ssa.Instruction
 		ssax.Instrs(fn, func(in ssa.Instruction) {
-			if f == nil && s.P(in) && (from == nil || ssax.Dominates(from, in)) {
+			if _, hi := w(in); f == nil && hi > 0 && (from == nil || ssax.Dominates(from, in)) {
 				f = in
 			}
 		})
@@ -765,6 +782,19 @@ func checkSequence(ctx *core.Ctx, r *RT, rule, construct string, fn *ssa.Functio
 	for i := 0; i+1 < len(steps); i++ {
 		a, b := firsts[i], firsts[i+1]
 		if a == nil || b == nil {
+			continue
+		}
+		if a == b {
+			// both steps happen inside the same helper call: their order is decided in the helper
+			if c, ok := a.(ssa.CallInstruction); ok {
+				if g := c.Common().StaticCallee(); g != nil {
+					ia, ib := firstMatchingLifted(g, steps[i].P), firstMatchingLifted(g, steps[i+1].P)
+					if ia != nil && ib != nil && ia != ib && !ssax.Dominates(ia, ib) {
+						okAll = false
+						ctx.Violate(rule, construct+" › "+steps[i].Name+" ≺ "+steps[i+1].Name, r.IPos(ib), steps[i+1].Name+" is not preceded by "+steps[i].Name+" on every path (in "+ssax.Name(g)+")")
+					}
+				}
+			}
 			continue
 		}
 		if !ssax.Dominates(a, b) {
@@ -781,6 +811,59 @@ func checkSequence(ctx *core.Ctx, r *RT, rule, construct string, fn *ssa.Functio
 	}
 }
 
+// liftedWeight: how often does instruction `in` of fn perform the step P —
+// directly (once), or through a same-goroutine call of a function of the same
+// package, with the range the callee performs it on its own successful paths.
+func liftedWeight(fn *ssa.Function, P ssax.Pred, depth int) func(ssa.Instruction) (int, int) {
+	memo := map[*ssa.Function][2]int{}
+	var w func(in ssa.Instruction, d int) (int, int)
+	w = func(in ssa.Instruction, d int) (int, int) {
+		if P(in) {
+			return 1, 1
+		}
+		if d <= 0 {
+			return 0, 0
+		}
+		c, ok := in.(*ssa.Call)
+		if !ok {
+			return 0, 0
+		}
+		g := c.Call.StaticCallee()
+		if g == nil || g.Pkg != fn.Pkg || len(g.Blocks) == 0 || g == fn {
+			return 0, 0
+		}
+		if v, ok := memo[g]; ok {
+			return v[0], v[1]
+		}
+		memo[g] = [2]int{0, 0}
+		lo, hi := ssax.CountOnPathsToW(g, nil, func(i2 ssa.Instruction) (int, int) { return w(i2, d-1) }, func(ret *ssa.Return) bool {
+			// successful return of the helper: no error result, or a nil one
+			res := g.Signature.Results()
+			if res.Len() == 0 || !isErrorType(res.At(res.Len()-1).Type()) {
+				return true
+			}
+			return nilErrorReturn(ret)
+		})
+		if hi <= 0 {
+			lo, hi = 0, 0
+		}
+		memo[g] = [2]int{lo, hi}
+		return lo, hi
+	}
+	return func(in ssa.Instruction) (int, int) { return w(in, depth) }
+}
+
+func firstMatchingLifted(fn *ssa.Function, P ssax.Pred) ssa.Instruction {
+	w := liftedWeight(fn, P, 1)
+	var f ssa.Instruction
+	ssax.Instrs(fn, func(in ssa.Instruction) {
+		if _, hi := w(in); f == nil && hi > 0 {
+			f = in
+		}
+	})
+	return f
+}
+
 func nilErrorReturn(ret *ssa.Return) bool {
 	if len(ret.Results) == 0 {
 		return true
@@ -792,12 +875,136 @@ func nilErrorReturn(ret *ssa.Return) bool {
 
 // protoStep builds a predicate for "operation op on protocol value proto".
 func protoStep(proto ssa.Value, op string) ssax.Pred {
+	aliases := valueAliases(proto)
 	return func(in ssa.Instruction) bool {
 		c, ok := ssax.AsCall(in)
 		if !ok {
 			return false
 		}
 		p, o := protoOp(c)
-		return o == op && p == ssax.Strip(proto)
+		return o == op && aliases[p]
 	}
+}
+
+// valueAliases: v itself and the parameters of functions of the same package
+// that receive v as an argument (two levels): the same object seen from an
+// extracted helper.
+func valueAliases(v ssa.Value) map[ssa.Value]bool {
+	out := map[ssa.Value]bool{ssax.Strip(v): true}
+	var fn *ssa.Function
+	switch x := ssax.Strip(v).(type) {
+	case *ssa.Parameter:
+		fn = x.Parent()
+	case ssa.Instruction:
+		fn = x.Parent()
+	}
+	if fn == nil {
+		return out
+	}
+	frontier := []*ssa.Function{fn}
+	for d := 0; d < 2; d++ {
+		var next []*ssa.Function
+		for _, f := range frontier {
+			for _, c := range ssax.Calls(f) {
+				g := c.Static
+				if g == nil || g.Pkg != fn.Pkg || len(g.Blocks) == 0 {
+					continue
+				}
+				for i, a := range c.Common.Args {
+					if out[ssax.Strip(a)] && i < len(g.Params) && !out[g.Params[i]] {
+						out[g.Params[i]] = true
+						next = append(next, g)
+					}
+				}
+			}
+		}
+		frontier = next
+	}
+	return out
+}
+
+// ThroughCall looks through a call of a small function of the analysed package
+// that simply computes and returns a value: it yields the returned value (in
+// the callee) and a function mapping callee values back to the caller's
+// (parameters become the call's arguments). For any other value it returns v
+// and the identity.
+func ThroughCall(r *RT, v ssa.Value) (ssa.Value, func(ssa.Value) ssa.Value) {
+	id := func(x ssa.Value) ssa.Value { return x }
+	c, ok := CallValue(v)
+	if !ok || c.Static == nil || c.Static.Pkg != r.Pkg || len(c.Static.Blocks) == 0 {
+		return v, id
+	}
+	g := c.Static
+	rets := ReturnedValues(g)
+	if len(rets) != 1 {
+		return v, id
+	}
+	for _, vs := range rets {
+		if len(vs) != 1 {
+			return v, id
+		}
+		args := c.Common.Args
+		back := func(x ssa.Value) ssa.Value {
+			sx := ssax.Strip(x)
+			for i, p := range g.Params {
+				if ssa.Value(p) == sx && i < len(args) {
+					return args[i]
+				}
+			}
+			return x
+		}
+		return vs[0], back
+	}
+	return v, id
+}
+
+// Role-based anchors: unexported helpers are found through the exported entry
+// point they serve and their shape, so a rename does not lose them.
+
+// roleSendError: the method the exported SendError delegates the writing to
+// (same receiver, takes the output protocol); falls back to SendError itself.
+func (r *RT) roleSendError() *ssa.Function {
+	se := r.FnOpt("(*FBaseProcessorFunction).SendError")
+	if se == nil {
+		return nil
+	}
+	for _, c := range ssax.Calls(se) {
+		g := c.Static
+		if g == nil || g.Pkg != r.Pkg || g.Signature.Recv() == nil || !types.Identical(g.Signature.Recv().Type(), se.Signature.Recv().Type()) {
+			continue
+		}
+		for _, p := range g.Params {
+			if ssax.TypeNamed(p.Type(), "", "FProtocol") {
+				return g
+			}
+		}
+	}
+	return se
+}
+
+// roleTrapError: the method SendReply routes a failed write step through
+// (same receiver, has an error parameter and returns an error).
+func (r *RT) roleTrapError() *ssa.Function {
+	sr := r.FnOpt("(*FBaseProcessorFunction).SendReply")
+	if sr == nil {
+		return nil
+	}
+	for _, f := range localCone(sr, 2) {
+		if f == sr {
+			continue
+		}
+		if f.Signature.Recv() == nil || !types.Identical(f.Signature.Recv().Type(), sr.Signature.Recv().Type()) {
+			continue
+		}
+		hasErrParam := false
+		for i := 0; i < f.Signature.Params().Len(); i++ {
+			if isErrorType(f.Signature.Params().At(i).Type()) {
+				hasErrParam = true
+			}
+		}
+		if hasErrParam && f.Signature.Results().Len() == 1 && isErrorType(f.Signature.Results().At(0).Type()) {
+			return f
+		}
+	}
+	return nil
 }
